@@ -145,6 +145,19 @@ func detWorkload(t *sim.Tape) (ops []detOp, desc string) {
 			return r
 		}})
 	}
+	if fw := gen.FractionalWidthFont(t); fw != nil {
+		ops = append(ops, detOp{name: "type1.Read(fractional widths, no .notdef, no space)", run: func() string {
+			g, err := type1.Read(bytes.NewReader(fw))
+			return dump.Err(err) + " " + dump.Font(g)
+		}})
+	}
+	if so, sp := gen.SubrFontPair(t); so != nil && sp != nil {
+		ops = append(ops, detOp{name: "type1.Read(font with Subrs) after a lenIV 0 font with the same Subrs bytes", run: func() string {
+			_, err0 := type1.Read(bytes.NewReader(sp))
+			g, err := type1.Read(bytes.NewReader(so))
+			return dump.Err(err0) + " | " + dump.Err(err) + " " + dump.Font(g)
+		}})
+	}
 	if cf := gen.CaseVariantFont(t); cf != nil {
 		ops = append(ops, detOp{name: "type1.Read(FontInfo keys differing in case only)", run: func() string {
 			g, err := type1.Read(bytes.NewReader(cf))
